@@ -609,6 +609,10 @@ pub fn finish(ctx: &Ctx, mut rep: Report, fin: Finish) -> i32 {
         for (k, v) in rep.extra.iter() {
             cov.insert(k.clone(), v.clone());
         }
+        let sc: BTreeMap<&str, u64> = crate::scenarios::counts().into_iter().filter(|(_, n)| *n > 0).collect();
+        if !sc.is_empty() {
+            cov.insert("directed_scenario_cases_generated".into(), json!(sc));
+        }
         let ev = json!({
             "property_id": ctx.id,
             "tier": if ctx.quick() {"quick"} else {"thorough"},
